@@ -1133,7 +1133,9 @@ impl ProtocolState {
             return Err(GneissError::new_internal_state_error("incoming network data while in an invalid state"));
         }
 
-        if self.state == ProtocolStateType::PendingConnack && self.is_connect_in_queue() {
+        // While pending connack, nothing may arrive until the CONNECT has completely left: it must be out of
+        // the queue, fully encoded and its socket write completed.
+        if self.state == ProtocolStateType::PendingConnack && (self.is_connect_in_queue() || self.current_operation.is_some() || self.pending_write_completion) {
             error!("[{} ms] handle_network_event_incoming_data - data received before CONNECT sent", self.elapsed_time_ms);
             self.change_state(ProtocolStateType::Halted);
             return Err(GneissError::new_protocol_error("data received before CONNECT sent"));
